@@ -43,6 +43,9 @@ fn nt_c10(_p: &Plan, o: &RunOut) -> bool {
 fn nt_c11(p: &Plan, o: &RunOut) -> bool {
     o.probes.api_calls >= 1 && p.api.iter().any(|a| a.at_us > 500_000) && o.probes.sealed_frames >= 50
 }
+fn nt_c15(_p: &Plan, o: &RunOut) -> bool {
+    o.probes.extra.get("timesync_ticks_measured").copied().unwrap_or(0) >= 100
+}
 fn nt_c16(p: &Plan, o: &RunOut) -> bool {
     match &p.mode {
         crate::plan::Mode::Builder { calls, .. } => calls.len() >= 3,
@@ -218,6 +221,18 @@ PropSpec {
     nontrivial: nt_c13,
     required_probes: &["synctest_runs_with_detection", "synctest_invalid_configs_tried", "rollbacks"],
     assumptions: &["the injected fault is a game step whose result differs between simulations of the same frame (fresh counter mixed into the state)", "no network, no clock: the technique degenerates to seeded workload + fault + oracle + replay"],
+    twin: None,
+},
+PropSpec {
+    id: "C15",
+    level: "exploration",
+    quick_runs: 990,
+    thorough_runs: 49_500,
+    default_seed: 1515,
+    rule: "fault-free grid: lead k in -7..=7 x symmetric constant latency 0,10,..,100 ms x fps {30,60,120} = 495 cells, each with seeded tick phase, poll period 1-2 ms (the documented main loop: poll often, advance once per frame), input delay and wall-clock skew of up to two days between the machines (quick: 2 seeds per cell, thorough: 100); window sized so that nobody stalls; 3 s warm-up, 5 s measurement. On every measured tick: frames_ahead() within 1 of +k / -k, the two values sum to within 1 of zero, ping within one tick (+1 ms) of the true round trip, remote_frames_behind equals the last quality report received and is within 1 of the other side's local_frames_behind; every WaitRecommendation carries frames_ahead() >= 3 and is >= 60 frames after the previous one; network_stats() gives no numbers in the first second. Non-trivial = >= 100 measured ticks; distinct = distinct executed-schedule hash",
+    nontrivial: nt_c15,
+    required_probes: &["timesync_ticks_measured", "wait_recommendations_checked", "wait_recommendation"],
+    assumptions: &["the simulated user follows the documented main loop (poll every 1-2 ms): polling only once per tick adds up to a tick of waiting to every measured round trip, which is the user's quantisation", "tolerances of +-1 frame / one tick are derived from poll granularity and integer truncation, not tuned"],
     twin: None,
 },
 PropSpec {
